@@ -143,6 +143,9 @@ def _stmt_list(draw, depth, budget, flags, in_loop=False, min_stmts=1):
                 inner = [["for", inner]]
                 if draw(st.integers(0, 2)) == 0:
                     inner[0].append(draw(_const_bounds(min_trips=1)))
+                    if depth > 1 and draw(st.booleans()):
+                        # the constant-bound loop (often a single trip) sits in another loop whose trip count is a run-time input
+                        inner = [["for", inner]]
             out.extend(inner)
             if draw(st.integers(0, 4)) == 0:
                 out.append(["bar"])
